@@ -145,6 +145,14 @@ class SymItemList:
     def __iter__(self):
         raise core.Unsupported("iteration over symbolic item list")
 
+    def to_symarr(self):
+        """np.array(items): a 1-d array of item ids (kind int), marked as an array of labels"""
+        from . import symnp
+
+        at = self._at
+        a = symnp.SymArr.fresh((self.n,), lambda idx: at(to_int(idx[0])), "int", origin="items:" + self.name)
+        return a
+
     def assume_subset_of(self, other):
         """precondition: every item of self is an item of other"""
         zn = self.zn()
